@@ -941,6 +941,12 @@ pub fn suite_comb(ctx: &Ctx, thorough: bool) {
                 ctx.violate("U-comb.builder_with_combined_name", "split after the last '/' (golang, npm) / first ':' (maven) / not at all", inp(), format!("{:?} {:?}", b.parts.namespace, b.parts.name), format!("{wns:?} {wname:?}"));
             }
             if let Ok(Ok(p)) = guarded(|| b.build()) {
+                // the PURL that is built reports that split: build() leaves the namespace alone, and the name up to the type's own rule
+                let name_kept = !matches!(t, PackageType::NuGet | PackageType::PyPI);
+                if p.namespace().unwrap_or("") != wns || (name_kept && p.name() != wname) {
+                    ctx.violate("U-comb.builder_with_combined_name", "split after the last '/' (golang, npm) / first ':' (maven) / not at all", json!({"type": t.name(), "combined": s, "observed": "after build()"}),
+                                format!("{:?} {:?}", p.namespace(), p.name()), format!("{wns:?} {wname:?}"));
+                }
                 // round trip under the side condition
                 let ok_side = match t {
                     PackageType::Golang | PackageType::Npm => !p.name().contains('/'),
